@@ -1,6 +1,6 @@
 CONSTANTS
   MaxRetry = 2
-  Kinds = {"connect", "readhdr", "timeout"}
+  Kinds = {"connect", "readhdr", "timeout", "rst"}
 INIT Init
 NEXT Next
 INVARIANT Emit
